@@ -69,6 +69,7 @@ RAWC = {
     "footnote-in-discarded": ("raw", lambda i: f"x[^d{i}]\n\n```{{figure}} a.png\n- item\n\n  [^d{i}]: note {S(i)} and ~~s~~\n```\n"),
     # raw markup inside a heading that other things are derived from (ids, the text of empty links): the refusal must not leak into them
     "raw-title": ("raw", lambda i: f"(lbl{i})=\n## Head {S(i)} tail\n\n[](#lbl{i}) and [](#head-p-tail) and {{ref}}`lbl{i}`\n"),
+    "epigraph-attr": ("raw", lambda i: f"```{{epigraph}}\nquote text\n\n-- attributed {S(i)} ~~s~~ end\n```\n"),
     "title-attr": ("esc", lambda i: f"[l](u '{S(i)}')\n"),
     "comment": ("rawnode-html", lambda i: f"<!-- {S(i)} -->\n"),
     "footnote-html": ("raw", lambda i: f"ref[^f{i}]\n\n[^f{i}]: note with {S(i)} and a\\\n  break\n"),
